@@ -159,10 +159,13 @@ def mc_laws(ctx, res):
 EDIT_COUNT = {}        # kind of edit -> how often it was applied in this run (stratified choice, reported in the evidence)
 
 
-def edit_and_resolve(s, cases, rng, rail_rep, kw):
-    """solve - edit - solve: after the system has been solved once, move a leaf to another parent (del_comp +
-    add_comp, re-using the freed node index) or replace an interior component by an equal one (change_comp), and
-    solve again; the new table is held to the projected state after the edit like any other"""
+def apply_some_edit(s, rng, kw=None):
+    """one edit of an already analysed system, of the applicable kind used least so far in this run: move a leaf to another
+    parent (del_comp + add_comp, re-using the freed node index), replace an interior component by an equal one
+    (change_comp), replace a phase-configured component without configuring it again, rename a source / inner component,
+    re-declare / clear the system phases, re-rail or delete a mux input.  Returns None when no edit applies, else
+    dict(what, edit, kw, exc): exc is the exception of an edit the library refused"""
+    kw = dict(kw or {})
     from model import build
     from project import project
     from rebuild import desc_of
@@ -196,7 +199,7 @@ def edit_and_resolve(s, cases, rng, rail_rep, kw):
     kinds += ["replace_conf_reset"] if confd else []
     kinds += ["rename"]         # (a source or an inner component gets another name after the system has been analysed)
     if not kinds:
-        return
+        return None
     # stratified: the applicable kind that has been used least so far in this run (ties broken at random)
     low = min(EDIT_COUNT.get(k, 0) for k in kinds)
     kind = rng.choice([k for k in kinds if EDIT_COUNT.get(k, 0) == low])
@@ -267,9 +270,21 @@ def edit_and_resolve(s, cases, rng, rail_rep, kw):
                 s.set_comp_phases(n, conf_of(pc))
             what = "replaced %s by an equal component" % n
     except Exception as e:
-        c = drv_solve.BuildFailure(s, "edit", {}, e).case(len(cases))
+        return {"what": kind, "edit": edit, "kw": kw, "exc": e}
+    return {"what": what, "edit": edit, "kw": kw, "exc": None}
+
+
+def edit_and_resolve(s, cases, rng, rail_rep, kw):
+    """solve - edit - solve: after the system has been solved once it is edited (apply_some_edit) and solved again; the
+    new table is held to the projected state after the edit like any other"""
+    r = apply_some_edit(s, rng, kw)
+    if r is None:
+        return
+    if r["exc"] is not None:
+        c = drv_solve.BuildFailure(s, "edit", {}, r["exc"]).case(len(cases))
         cases.append(c)
         return
+    what, edit, kw = r["what"], r["edit"], r["kw"]
     anom = project(s)["anom"]
     if anom:
         # the accepted edit left the registries inconsistent: there is no well-defined system to report on
@@ -819,6 +834,11 @@ def run_c03(ctx):
                         "iout": _cell(d["iout"])} for n, d in d19.items()]
         # committed reproducer of finding F16 (always executed)
         record(_f16_system(), {}, "std")
+        # hand-built scenarios and edit histories (harness/scenarios.py): solved under the tap like every other system
+        import scenarios
+        for name, s_or_exc, kw in scenarios.build_all() + scenarios.build_histories():
+            if not isinstance(s_or_exc, Exception):
+                record(s_or_exc, {}, "scenario")
         # (d): overloaded systems must raise or return a physical converged state
         for _ in range(n_over):
             st = next(it, None)
